@@ -11,7 +11,7 @@ linearising bracket are compared with the model's. Reply: `ok` or `reject <why>`
 
 ```
 lim <n> <0|1>                   start of a trace: configured limit; is a finished token left in the channel?
-new <tid> <cls> <var> <nil>     task attributes (tid = 0,1,2,… in order of first appearance)
+new <tid> <cls> <var> <nil> <zd> task attributes (tid = 0,1,2,…; zd = 1: called with max delay 0)
 t <tid> nilret | submit <m|l> | hinc <cnt> | tmoenq <cnt> | tmowait | begin | moddec <out> | dec <cnt>
         | tok <0|1> | ret <code> | doneagain
 s space <cnt> <lim> | full <cnt> <lim> | shut | grant <tid> | count <cnt> | other | woken | tick
@@ -81,6 +81,7 @@ def taskEv (x : Drv) (t : Nat) (ev : List String) : Except String Drv := do
     | none => throw s!"unknown task {t}"
   let high := decide (d.cls = 2)
   let p := prioOf d.cls
+  let z := decide (d.zd = 1 ∧ d.var = 2)   -- timer of a Signal* call made with max delay 0
   let me := some t
   match ev with
   | ["nilret"] => app x .callNil me
@@ -95,12 +96,12 @@ def taskEv (x : Drv) (t : Nat) (ev : List String) : Except String Drv := do
     | none => throw "bad-op"
   | ["tmoenq", c] =>
     match c.toInt? with
-    | some c => do chkCnt (← appAll x [(.tmoEnq p, me), (.tmoInc, me)]) c
+    | some c => do chkCnt (← appAll x [(.tmoEnq p z, me), (.tmoInc, me)]) c
     | none => throw "bad-op"
   | ["tmowait"] =>
-    if d.pc = 2 ∧ d.req = 1 then app x (.tmoWait p) me
-    else if d.pc = 2 ∧ d.req = 2 then app x .tmoHeld me
-    else app x .tmoLate me
+    if d.pc = 2 ∧ d.req = 1 then app x (.tmoWait p z) me
+    else if d.pc = 2 ∧ d.req = 2 then app x (.tmoHeld z) me
+    else app x (.tmoLate z) me
   | ["begin"] => app x (.begin high) me
   | ["moddec", o] =>
     match o.toNat? with
@@ -173,14 +174,14 @@ def handle (x : Drv) (line : String) : Except String Drv := do
     | some n, "0" => pure { Drv.init with g := PB.MicroTasks.init n, started := true }
     | some n, "1" => pure { Drv.init with g := PB.MicroTasks.initTok n, started := true }
     | _, _ => throw "bad-op"
-  | "new" :: [t, cls, var, nilm] =>
-    match t.toNat?, cls.toNat?, var.toNat?, nilm.toNat? with
-    | some t, some cls, some var, some nilm =>
+  | "new" :: [t, cls, var, nilm, zd] =>
+    match t.toNat?, cls.toNat?, var.toNat?, nilm.toNat?, zd.toNat? with
+    | some t, some cls, some var, some nilm, some zd =>
       if !x.started then throw "no lim line"
       else if t ≠ x.ts.size then throw s!"task ids must be consecutive (got {t}, expected {x.ts.size})"
-      else if cls > 2 ∨ var > 2 ∨ nilm > 1 then throw "bad-op"
-      else pure { x with ts := x.ts.push (DSt.new cls var nilm) }
-    | _, _, _, _ => throw "bad-op"
+      else if cls > 2 ∨ var > 2 ∨ nilm > 1 ∨ zd > 1 then throw "bad-op"
+      else pure { x with ts := x.ts.push (DSt.new cls var nilm zd) }
+    | _, _, _, _, _ => throw "bad-op"
   | "t" :: t :: ev =>
     match t.toNat? with
     | some t => if x.started then taskEv x t ev else throw "no lim line"
